@@ -42,7 +42,7 @@ class Ctx:
 
 def run(prop, level, rule, tier, seed, n_schemas, n_examples, make_strategy, case_fn, confirm_fn, replay_files,
         schema_cfg=None, schema_strategy=None, exes=("p21read", "p21drv"), min_cases=50, variant="plain",
-        schema_filter=None, post=None, nproc=None):
+        schema_filter=None, post=None, nproc=None, extra_schemas=None):
     ev = common.Evidence(prop, level, tier, seed, rule)
     findings = common.Findings()
     root = common.scratch(prop.lower())
@@ -54,6 +54,9 @@ def run(prop, level, rule, tier, seed, n_schemas, n_examples, make_strategy, cas
         ev.bump("schemas-rejected-by-filter", len(schemas) - len(kept))
         schemas = kept
     schemas = schemas[:want]
+    if extra_schemas:
+        # fixed hand-written schemas (lib/zoo.py) explored in addition to the drawn ones
+        schemas = list(extra_schemas) + schemas
     for sd in schemas:
         for x in sd.get("tags", {}).get("excluded", []):
             ev.exclude(x)
